@@ -36,3 +36,11 @@ chk("C01", "exploration", "systematic token mutation + independent reference ver
     "Trusted: OpenSSL primitives called directly; lenient reference decoding makes the check one-directional. Forgeries that need "
     "to break the primitive are out of reach. One open known finding (Ed448 last byte on GnuTLS, root cause in nettle).",
     "DESIGN.md 3/C01")
+chk("C04", "exploration", "history replay against a reference claim model with a harness-controlled clock, under ASan/UBSan",
+    "Every configuration call and every verify of generated histories is logged at the API boundary and replayed through a "
+    "30-line Python model of the statement: complete cross product of 7 clock values x 8 leeways x boundary neighbours / "
+    "INT64 extremes / 12 non-integer JSON types for exp and nbf, all expected/actual string pairs for iss/sub/aud, then 2e4 "
+    "(quick) / 1e6 (thorough) random histories of claim_set/claim_del/time_leeway interleaved with verifies, on unsigned and "
+    "HS256-signed tokens.",
+    "Trusted: Python json as reference reader; the harness' time() replaces the libc clock for the statically linked library. "
+    "Integers beyond int64 and escaped NULs are unjudged (jansson refuses them).", "DESIGN.md 3/C04")
